@@ -174,7 +174,7 @@ def canon_val(v, base):
     if isinstance(v, list):
         return ["L", [canon_val(x, base) for x in v]]
     if isinstance(v, (set, frozenset)):
-        return ["E", sorted((canon_val(x, base) for x in v), key=core.canon)]
+        return ["E", sorted((canon_val(x, base) for x in v), key=akey)]
     if isinstance(v, BaseModel):
         consts = getattr(type(v), "__constants__", None) or {}
         fields = {k: canon_val(x, base) for k, x in v.__dict__.items()
@@ -213,6 +213,11 @@ def enc(c):
 
 
 def show(c):
+    return " ".join(enc(c))
+
+
+def akey(c):
+    """sort key of set elements (both sides sort by the token encoding)."""
     return " ".join(enc(c))
 
 
@@ -329,7 +334,7 @@ def expect_merge(a, b, ow, top=False):
     if ka == "L":
         return ("ok", ["L", a[1] + b[1]])
     if ka == "E":
-        u = {core.canon(x): x for x in a[1] + b[1]}
+        u = {akey(x): x for x in a[1] + b[1]}
         return ("ok", ["E", [u[k] for k in sorted(u)]])
     if ka == "A":
         return ("ok", b) if ow else ("err",)
@@ -454,6 +459,11 @@ def realise_canon(case):
     try:
         fam = _family(case["family"])
         out = []
+        if case.get("kind") == "roundtrip":
+            try:
+                return dict(canon=[canon_val(_inst(case["obj"], fam, "complete"), fam["base"])])
+            except Exception as e:  # noqa: BLE001
+                return dict(unrealisable="%s: %s" % (type(e).__name__, str(e)[:300]))
         for spec, src in zip(case["ops"], case["src"]):
             try:
                 o = realise(spec, src, case["family"], tmp)
@@ -598,7 +608,7 @@ def _impl(case, tmp):
 # ----------------------------------------------------------------------------- model lines
 def lines(case):
     if case.get("kind") == "roundtrip":
-        return ["rt " + show(_spec_canon(case["obj"]))]
+        return ["req Top " + "r".encode().hex(), "req Top.Top2 " + "r".encode().hex(), "rt " + show(case["canon"][0])]
     L = []
     for nm, cv in zip("abc", case["canon"]):
         L.append("set %s %s" % (nm, show(cv)))
@@ -610,7 +620,7 @@ def lines(case):
 
 def compare(case, ir, mo):
     if case.get("kind") == "roundtrip":
-        return core.default_compare(case, ir, mo)
+        return core.default_compare(case, dict(out=["ok"] * 2 + ir["out"]), mo)
     return core.default_compare(case, dict(out=["ok"] * 3 + ir["out"]), mo)
 
 
@@ -622,7 +632,7 @@ def _spec_canon(spec):
     if t == "L":
         return ["L", [_spec_canon(x) for x in spec[1]]]
     if t == "E":
-        u = {core.canon(x): x for x in spec[1]}
+        u = {akey(x): x for x in spec[1]}
         return ["E", [u[k] for k in sorted(u)]]
     return ["O", CHAINS[spec[1]], {k: _spec_canon(v) for k, v in spec[2].items()}]
 
@@ -683,7 +693,7 @@ def g_par(rng, fam, classes=("Par", "Chi", "Gch")):
 
 
 def _uniq(l):
-    u = {core.canon(x): x for x in l}
+    u = {akey(x): x for x in l}
     return [u[k] for k in sorted(u)]
 
 
@@ -764,7 +774,7 @@ def gen_cases(ctx, scale=1.0):
         fam = "pl" if rng.random() < 0.3 else "ms"
         r = rng.random()
         classes = ("Par", "Chi", "Gch") if r < 0.75 else ("Par", "Chi", "Sib")
-        sparse = rng.choice([0.15, 0.3, 0.5])
+        sparse = rng.choice([0.08, 0.15, 0.3, 0.5])
         srcs = [rng.choice(SRCS) for _ in range(3)] if rng.random() < 0.8 else ["dict"] * 3
         tops = ["Top"] * 3 if rng.random() < 0.85 else [rng.choice(["Top", "Top2"]) for _ in range(3)]
         if len(set(tops)) > 1:
@@ -812,7 +822,7 @@ def gen_cases(ctx, scale=1.0):
 def phase1(ctx, cases):
     """Realise every operand once to obtain the model input; drops unrealisable cases (counted)."""
     from .. import pool
-    tri = [c for c in cases if c.get("kind", "triple") == "triple"]
+    tri = list(cases)
     res = pool.run(MOD, "realise_canon", tri, timeout=60)
     keep = []
     for c, r in zip(tri, res):
@@ -825,7 +835,7 @@ def phase1(ctx, cases):
             ctx.dist["unrealisable:" + c["family"]] += 1
             if len(ctx.notes) < 5:
                 ctx.notes.append("unrealisable %s %s: %s" % (c["family"], c["src"], r["ok"]["unrealisable"][:200]))
-    return keep + [c for c in cases if c.get("kind") == "roundtrip"]
+    return keep
 
 
 def run(ctx):
@@ -935,9 +945,8 @@ def replay(ctx, rep):
     if not case:
         print(core.canon(rep)[:2000])
         return 0
-    if case.get("kind", "triple") == "triple":
-        r = pool.run_one(MOD, "realise_canon", case, timeout=60)
-        case = dict(case, canon=r["ok"]["canon"])
+    r = pool.run_one(MOD, "realise_canon", case, timeout=60)
+    case = dict(case, canon=r["ok"]["canon"])
     r = pool.run_one(MOD, "impl", case, timeout=120)
     print("implementation:", core.canon(r)[:4000])
     print("model:", lean.run_driver("drv_par", [lines(case)]))
